@@ -338,6 +338,40 @@ def known_kholaw_zero_scalar_replay():
     return None
 
 
+
+def f18_noncanonical_ed25519_key(fn, args, record):
+    """F18 seen through the extended-key layer: an extended PUBLIC key whose 0x00-prefixed ed25519 key bytes are a
+       non-canonical encoding of a curve point (y >= p, or x = 0 with the sign bit set) is accepted by the
+       ed25519 back-end; the property (and the model, whose validity oracle is RFC 8032's) say Bip32KeyError."""
+    if fn not in ("c05_from_extended", "c05_reserialize", "c05_deserialize"):
+        return False
+    if record.get("kind") == "divergence":
+        if record.get("model") != {"err": "Bip32KeyError"} or "ok" not in (record.get("impl") or {}):
+            return False
+    elif "accepted" not in record.get("what", "") or "Bip32KeyError" not in record.get("what", ""):
+        return False
+    try:
+        data = b58dec(args[3])[:-4]
+    except (ValueError, IndexError, TypeError):
+        return False
+    if len(data) != 78 or data[:4] != args[1] or data[45] != 0:
+        return False
+    k = bytes(data[46:])
+    return ecref.ED25519.deser(k, canonical=False) is not None and ecref.ED25519.deser(k, canonical=True) is None
+
+
+def f18_noncanonical_ed25519_key_replay():
+    from bip_utils import Bip32Slip10Ed25519
+    key = b"\x00" + bytes([1]) + bytes(30) + b"\x80"        # the identity with the sign bit set
+    data = bytes.fromhex("0488b21e") + bytes([1]) + bytes(4) + bytes(4) + bytes(32) + key
+    s = b58c_enc(data)
+    try:
+        Bip32Slip10Ed25519.FromExtendedKey(s)
+    except Exception:  # noqa
+        return None
+    return "Bip32Slip10Ed25519.FromExtendedKey(%r) accepts the non-canonical encoding 01 00..00 80 of the identity" % s
+
+
 # ------------------------------------------------------------------ every coin: Bip44/49/84/86/Cip1852.FromExtendedKey
 
 def _bips():
